@@ -225,6 +225,7 @@ StreamOwnerIsReserver == PropHolds(st).StreamOwnerIsReserver
 OkHasBody == PropHolds(st).OkHasBody
 ResetIsFresh == PropHolds(st).ResetIsFresh
 EventsOnlyToSubscribers == PropHolds(st).EventsOnlyToSubscribers
+FailResetShutdownOnlyToSubscribers == PropHolds(st).FailResetShutdownOnlyToSubscribers
 RestoreOkOnlyAfterHook == PropHolds(st).RestoreOkOnlyAfterHook
 \* state constraints that cut off the behaviours of the recorded findings (lib/mcrapid.py)
 NoDoubleReset == \A k \in DOMAIN st.iv : ~(<<k, "T">> \in DOMAIN st.rs /\ <<k, "F">> \in DOMAIN st.rs)
